@@ -484,6 +484,45 @@ func c18ParseConcurrent(c *mon.Ctx) {
 	c.Add("concurrent_client_receives", int64(G*rounds))
 }
 
+// c18Bystander: a request is addressed to the kernel only. A client that is bound to a multicast group (as the
+// audit multicast client is) must not hand its requests to the other members of the group: a second socket in the
+// same group must receive nothing when the client sends. Groups nobody else uses (RTNLGRP_NOP2 on NETLINK_ROUTE,
+// bit 20 on NETLINK_USERSOCK); message type NLMSG_NOOP without flags, which the kernel ignores.
+func c18Bystander(c *mon.Ctx) {
+	for _, pg := range [][2]int{{syscall.NETLINK_ROUTE, 1 << 13}, {syscall.NETLINK_USERSOCK, 1 << 20}} {
+		proto, groups := pg[0], uint32(pg[1])
+		fd, err := syscall.Socket(syscall.AF_NETLINK, syscall.SOCK_RAW|syscall.SOCK_CLOEXEC, proto)
+		if err != nil {
+			c.Note("bystander: cannot open a protocol %d socket: %v", proto, err)
+			continue
+		}
+		if err := syscall.Bind(fd, &syscall.SockaddrNetlink{Family: syscall.AF_NETLINK, Groups: groups}); err != nil {
+			c.Note("bystander: cannot join group %#x of protocol %d: %v", groups, proto, err)
+			syscall.Close(fd)
+			continue
+		}
+		cl, err := libaudit.NewNetlinkClient(proto, groups, make([]byte, 8192), nil)
+		if err != nil {
+			c.Note("bystander: cannot open a protocol %d client in group %#x: %v", proto, groups, err)
+			syscall.Close(fd)
+			continue
+		}
+		buf := make([]byte, 8192)
+		for i := 0; i < 5; i++ {
+			payload := []byte(fmt.Sprintf("verif-bystander-%d-%d", proto, i))
+			cl.Send(syscall.NetlinkMessage{Header: syscall.NlMsghdr{Type: syscall.NLMSG_NOOP}, Data: payload}) // ECONNREFUSED on USERSOCK (nobody at port 0) is fine
+			c.Add("requests_sent_from_a_group_member", 1)
+			n, _, err := syscall.Recvfrom(fd, buf, syscall.MSG_DONTWAIT)
+			if err == nil && n > 0 {
+				c.Violation("request-multicast-to-group", fmt.Sprintf("a second socket in multicast group %#x of netlink protocol %d received %d bytes when the client sent a request (carries the request's payload: %v): requests go to the kernel only", groups, proto, n, bytes.Contains(buf[:n], payload)), &c18Case{Kind: "bystander", Dgram: append([]byte(nil), buf[:n]...)})
+				break
+			}
+		}
+		cl.Close()
+		syscall.Close(fd)
+	}
+}
+
 func c18Run(c *mon.Ctx) {
 	// (a)+(c) framing through the kernel's echo
 	cl, err := libaudit.NewNetlinkClient(syscall.NETLINK_ROUTE, 0, make([]byte, 32768), nil)
@@ -623,6 +662,7 @@ func c18Run(c *mon.Ctx) {
 	c18Spoof(c)
 	c18Parse(c)
 	c18ParseConcurrent(c)
+	c18Bystander(c)
 	c.Require("frames_echoed", 100)
 	c.Require("payload_echoes_compared", 100)
 	c.Require("header_only_echoes", 10)
@@ -639,7 +679,7 @@ func c18Run(c *mon.Ctx) {
 func init() {
 	register(&mon.CheckSpec{
 		ID: "C18", Level: "exploration",
-		Rule: "cases = (a,c) requests sent with NetlinkClient.Send on a real NETLINK_ROUTE socket - types 0..15 with NLM_F_ACK (header-only echo) and random types in 256..65535 (never 16..255: live rtnetlink operations), flags = any 16 bits | NLM_F_REQUEST (and any 16 bits | NLM_F_ACK without NLM_F_REQUEST: acknowledged unprocessed, header echoed), payload lengths 0..8970 (every 37th quick, every length thorough) plus every length 0..64, random short payloads, and clients whose caller-supplied read buffer the reply fills exactly or with 1/4/64 bytes to spare - (most through a second client opened while a first one is open, so the socket's port id differs from the process id) whose NLMSG_ERROR reply, read back with Receive, carries the request as the kernel saw it (length, type, flags, port id, sequence = returned value, payload bytes); (b) N in {2,4,16} goroutines x M sends on one client: per-goroutine increasing, globally distinct, and the recorded {call, return, value} history checked with porcupine against a strictly increasing counter model (direct interval check when porcupine gives up); (d) datagrams of every length 0..64 and random longer ones, arbitrary and ACK-shaped contents, unicast and multicast from a second user-space netlink socket (NETLINK_ROUTE as root, NETLINK_USERSOCK): Receive must return an error and no message, and a later kernel reply must still be received; (e) AuditClient.Receive over the simulated Netlink with datagrams of every length 0..64 and random longer ones ending at a PROT_NONE page; (f) eight AuditClients, each with its own transport and goroutine, receiving at the same time: each gets the type and payload of its own datagram. Runs under the race detector; ASan in thorough. distinct_nontrivial = distinct frames, spoofed datagrams, parse inputs and sequence histories.",
+		Rule: "cases = (a,c) requests sent with NetlinkClient.Send on a real NETLINK_ROUTE socket - types 0..15 with NLM_F_ACK (header-only echo) and random types in 256..65535 (never 16..255: live rtnetlink operations), flags = any 16 bits | NLM_F_REQUEST (and any 16 bits | NLM_F_ACK without NLM_F_REQUEST: acknowledged unprocessed, header echoed), payload lengths 0..8970 (every 37th quick, every length thorough) plus every length 0..64, random short payloads, and clients whose caller-supplied read buffer the reply fills exactly or with 1/4/64 bytes to spare - (most through a second client opened while a first one is open, so the socket's port id differs from the process id) whose NLMSG_ERROR reply, read back with Receive, carries the request as the kernel saw it (length, type, flags, port id, sequence = returned value, payload bytes); (b) N in {2,4,16} goroutines x M sends on one client: per-goroutine increasing, globally distinct, and the recorded {call, return, value} history checked with porcupine against a strictly increasing counter model (direct interval check when porcupine gives up); (d) datagrams of every length 0..64 and random longer ones, arbitrary and ACK-shaped contents, unicast and multicast from a second user-space netlink socket (NETLINK_ROUTE as root, NETLINK_USERSOCK): Receive must return an error and no message, and a later kernel reply must still be received; (e) AuditClient.Receive over the simulated Netlink with datagrams of every length 0..64 and random longer ones ending at a PROT_NONE page; (f) eight AuditClients, each with its own transport and goroutine, receiving at the same time: each gets the type and payload of its own datagram; (g) a client bound to an otherwise unused multicast group sends NLMSG_NOOP requests while a second socket in the same group listens: it must receive nothing (requests are addressed to the kernel only). Runs under the race detector; ASan in thorough. distinct_nontrivial = distinct frames, spoofed datagrams, parse inputs and sequence histories.",
 		Assumptions: []string{
 			"the running kernel echoes rejected NETLINK_ROUTE requests in NLMSG_ERROR replies (netlink_ack) and delivers user-to-user netlink datagrams for root; if sockets cannot be opened the check is inconclusive, not green",
 			"message types 16..255 are never sent (they are live rtnetlink operations)",
